@@ -15,7 +15,7 @@ TABLE = {
              "DESIGN.md 8 C01, Appendix B.1", "Lean 4 invariant by induction over operation sequences + differential correspondence"),
     "C02": e("Lean theorems: character classes regenerated from the source and proved over all 256 bytes; the 2-bit lane algebra; a whole sweep of update_command over a table of any size computes every entry's match state against the typed name (C02_sweep); the search loop returns exactly the specification's `resolve` (first full match, else unique partial match, else ERROR; C02_search with a declarative characterisation); the request type is fixed by the suffix alone and each loop step invokes exactly one handler of its type for the selected command.",
              "DESIGN.md 8 C02", "Lean 4 refinement of the lane/search loops to a name-resolution spec + translator + correspondence"),
-    "C03": e("PARTIAL. Lean theorems: buffer geometry from the generated size expressions; a store faults iff outside the acting machine's region and then stores nothing; one step of either machine leaves the other machine's region unchanged (all states, inputs, handler answers); print primitives, result-code copy, argument collection and in-range variable stores never raise the model's fault flags. The global no-fault invariant is not proved; that the compiled C performs those accesses and no others is sampled by the ASan/UBSan-instrumented correspondence run with exact-size allocations.",
+    "C03": e("PARTIAL. Lean theorems: along every history of API calls from cat_init no undefined operation is performed (C03_no_undefined_operation: table cursor inside the table, a command selected wherever it is dereferenced, variable cursors inside the variable lists, print cursors within capacity, both machines; invariants UbInv/UbInvU); buffer geometry from the generated size expressions; a store faults iff outside the acting machine's region and then stores nothing; one step of either machine leaves the other machine's region unchanged (all states, inputs, handler answers); print primitives, result-code copy, argument collection and in-range variable stores never raise the model's fault flags. The out-of-bounds flag is not proved to stay false along every history; that the compiled C performs those accesses and no others is sampled by the ASan/UBSan-instrumented correspondence run with exact-size allocations.",
              "DESIGN.md 8 C03, 13", "Lean 4 bounds lemmas on a fault-flag model + sanitizer-instrumented differential runs",
              "Partial by nature: a theorem cannot exhibit memory accesses of compiled code."),
     "C04": e("Lean theorems by induction over the argument text (any length): each numeric parser accepts exactly the type's grammar with the exact mathematical value, the 64-bit accumulators never wrap under the guards, range validation is exactly `fits`, a rejected text stores nothing.",
